@@ -13,8 +13,14 @@ from terms import show
 FROM_BITSLICE = re.compile(r"^<S as kmer::sealed::KmerStorage>::from_bitslice$|^kmer::integral64::<impl kmer::sealed::KmerStorage for (usize|u64|u128)>::from_bitslice$|^<usize as kmer::sealed::KmerStorage>::from_bitslice$")
 
 
+UNSAFE_FROM = re.compile(r"^kmer::Kmer::<A, K(, S)?>::unsafe_from_seqslice$")
+
+
 def is_pack(t):
-    """Kmer { _p, bs: S::from_bitslice(X) } -> X"""
+    """Kmer { _p, bs: S::from_bitslice(X) } -> X ; Kmer::unsafe_from_seqslice(s) -> bits(s) (row R22)"""
+    if isinstance(t, tuple) and t[0] == "call" and UNSAFE_FROM.match(t[1]) and len(t[2]) == 1:
+        x = t[2][0]
+        return ("bits", x[1] if x[0] == "seqview" else x)
     if isinstance(t, tuple) and t[0] == "agg" and t[1] == "kmer::Kmer" and len(t[4]) == 2:
         f = t[4][1]
         if isinstance(f, tuple) and f[0] == "call" and FROM_BITSLICE.match(f[1]):
